@@ -111,9 +111,14 @@ PROPS["C08"] = dict(
         dict(pkg="./pkg/rlimit", run="^VerifC08_PrepareRLimit$", replay="native", reach=["configured", "unconfigured"]),
         dict(pkg=PT, run="^VerifC08_CheckUsage$", replay="model", reach=["mle", "tle", "within", "both"]),
         dict(pkg=PT, run="^VerifC08_PtraceLimitSignals$", replay="model", reach=["xcpu", "xfsz", "other"]),
+        # the real trace loop with symbolic bounds and a symbolic usage record: verdict together with the measurements
+        dict(pkg=PT, run="^VerifC08_TraceMeasurements$", replay="model", reach=["ended-on-main-event", "over-bound", "xcpu-stop", "xfsz-stop"]),
+        # a limit the kernel refuses (any errno at the prlimit64 step) stops the launch: the program never runs with other limits than configured
+        dict(pkg=FE, run="^VerifC08_RefusedLimit$", replay="model", preempt=0, timeout=1500, reach=["start-error", "indexed-step"]),
         dict(pkg=US, run="^VerifC08_UnshareUsage$", replay="model", reach=["over-limit", "exited", "signaled"]),
         dict(pkg=FE, run="^VerifC08_LimitsInForce$", replay="model", preempt=0, reach=["execed", "configured", "inherited"]),
         dict(pkg="./pkg/pipe", run="^VerifC08_OutputCollector$", replay="model", preempt=2, timeout=1500, reach=["done-signalled", "over-cap"]),
+        dict(pkg="./pkg/pipe", run="^VerifC08_OutputCollectorBulk$", replay="model", preempt=0, timeout=900, reach=["done-signalled", "over-cap"]),
     ],
 )
 
@@ -402,6 +407,8 @@ PROPS["C19"] = dict(
         dict(pkg="./pkg/unixsocket", run="^VerifC19_RoundTrip$", replay="model", preempt=0, reach=["delivered", "rejected"]),
         dict(pkg="./pkg/unixsocket", run="^VerifC19_HostilePeer$", replay="model", preempt=0, reach=["delivered"]),
         dict(pkg=CT, run="^VerifC19_FramedCap$", replay="model", preempt=0, reach=["too-large", "fits"]),
+        # sequences of three framed messages with failing / oversized sends on both real endpoints over an abstract gob stream (type description once, values after it)
+        dict(pkg=CT, run="^VerifC19_FramedSequence$", replay="model", preempt=0, reach=["send-rejected", "delivered", "receive-rejected"]),
     ],
 )
 
@@ -421,6 +428,8 @@ PROPS["C20"] = dict(
         dict(pkg="./pkg/cgroup", run="^VerifC20_V2Lifecycle$", replay="model", preempt=0, reach=["new", "random", "random-twice"]),
         dict(pkg="./pkg/cgroup", run="^VerifC20_V2ConcurrentNew$", replay="model", preempt=2, reach=["both-done"]),
         dict(pkg="./pkg/cgroup", run="^VerifC20_V1ConcurrentNew$", replay="model", preempt=2, reach=["both-done"]),
+        dict(pkg="./pkg/cgroup", run="^VerifC20_V2ConcurrentSubNew$", replay="model", preempt=2, reach=["both-done"]),
+        dict(pkg="./pkg/cgroup", run="^VerifC20_V1ConcurrentSubNew$", replay="model", preempt=2, reach=["both-done"]),
         dict(pkg="./pkg/cgroup", run="^VerifC20_Readers$", replay="model", preempt=0, timeout=900, reach=["cpu-valid", "cpu-malformed", "cpu-missing-field", "mem-valid", "missing-file"]),
         dict(pkg="./pkg/cgroup", run="^VerifC20_Writers$", replay="model", preempt=0, reach=["addproc", "memlimit", "proclimit"]),
         dict(pkg="./pkg/cgroup", run="^VerifC20_V1Lifecycle$", replay="model", preempt=0, reach=["created"]),
